@@ -268,6 +268,17 @@ impl Transaction {
             );
             return Err(Error::from(ErrorKind::NotFound));
         }
+        if total_requested > 0
+            && wallet.get_usable_balance(latest_block_id, genesis_period) < total_requested
+        {
+            // generate_slips skips slips that are about to leave the genesis period. without
+            // them the inputs would not cover the outputs
+            debug!(
+                "not enough usable funds to create transaction. required : {:?}",
+                total_requested
+            );
+            return Err(Error::from(ErrorKind::NotFound));
+        }
 
         let mut transaction = Transaction::default();
         if total_requested == 0 {
